@@ -69,14 +69,16 @@ class BlockingSource:
         return self.items[i]
 
 
-def scen_async(n, failpos, step, kind, prio_idx, p1):
-    """consume to_async_iter(source) on a loop thread, with a ticker task on the same loop"""
+def scen_async(n, failpos, step, kind, prio_idx, p1, big=0, slow=0):
+    """consume to_async_iter(source) on a loop thread, with a ticker task on the same loop.
+    big > 0: a source of n = big elements (concrete length); slow: the consumer sleeps `slow` ticks after its first element,
+    so that a never-blocking producer runs arbitrarily far ahead of it."""
     global LAST_INFO, RAW
     refuel()
-    n = pick(n, 5)
+    n = big if big else pick(n, 5)
     kind = pick(kind, 3)
     items = [ELEMS[i % len(ELEMS)] for i in range(n)]
-    W = vt.World(prio=vt.permutation(2, pick(prio_idx, 2)), preempts=[(p1, 0)], max_steps=6000, trace=not tracing())
+    W = vt.World(prio=vt.permutation(2, pick(prio_idx, 2)), preempts=[(p1, 0)], max_steps=6000 + 40 * n, trace=not tracing())
     L = simloop.SimLoop('C', W)
     exc = SrcError('src')
     log = []
@@ -116,6 +118,8 @@ def scen_async(n, failpos, step, kind, prio_idx, p1):
         try:
             async for x in M.to_async_iter(src):
                 got.append(x)
+                if slow and len(got) == 1:
+                    await aio.sleep(slow)
             res['end'] = ('stop', None)
         except BaseException as e:  # noqa
             reraise_engine(e)
@@ -271,6 +275,15 @@ def cells(prop, tier):
         out.append(Cell(name='c16_sync_%s' % ('given_loop' if own else 'new_loop'), sig='n: int, failpos: int, step: int, prio_idx: int, p1: int',
                         pre=['0 <= n <= 3 and -1 <= failpos <= n and 0 <= step <= 1 and 0 <= prio_idx <= 1 and 0 <= p1 <= 90'],
                         body='H.scen_sync(n, failpos, step, %r, prio_idx, p1)' % own, tier=q, timeout=900, family='sync', weight=3))
+    # long source, consumer far behind a never-blocking producer (read-ahead limits, dropped hand-overs): concrete length, symbolic
+    # failure position class (none / after the last / at the last element), consumer delay, source kind and thread priority
+    for big in ((1100,) if tier != 'thorough' else (1100, 4200)):
+        for kind in range(2):
+            for fs, fp in enumerate((-1, big, big - 1)):
+                out.append(Cell(name='c16_async_long_%s_n%d_f%d' % (('iterator', 'generator')[kind], big, fs), sig='slow: int, prio_idx: int',
+                                pre=['1 <= slow <= 2 and 0 <= prio_idx <= 1'],
+                                body='H.scen_async(0, %d, 0, %d, prio_idx, -1, %d, slow)' % (fp, kind, big),
+                                tier=q if big == 1100 else 'thorough', timeout=600 if big == 1100 else 3000, family='async', weight=4))
     out.append(Cell(name='twin_c16_async', sig='p1: int', pre=['0 <= p1 <= 30'], body='H.twin(0, p1)', expect='refute', timeout=200, family='async'))
     out.append(Cell(name='twin_c16_sync', sig='p1: int', pre=['0 <= p1 <= 30'], body='H.twin(1, p1)', expect='refute', timeout=200, family='sync'))
     if tier == 'thorough':
@@ -292,8 +305,10 @@ META = {'C16': {
                    'ticker task on the consuming loop ticks once per time unit while the producer blocks; no helper thread alive at the end.',
     'functions': [('aiuti/asyncio.py', 'to_async_iter'), ('aiuti/asyncio.py', 'to_sync_iter')],
     'bounds': 'quick: sources of length 0..3 as blocking iterator / generator / re-iterable and async generator, failure at every position or none, '
-              'step duration 0..2, both priority orders, every single pre-emption position; thorough: length 4, step 0..3',
-    'outside': 'length > 4; more than one pre-emption; bytecode-level races in the hand-off queue',
+              'step duration 0..2, both priority orders, every single pre-emption position; plus one concrete long source (1100 elements, consumer '
+              'sleeping 1..2 ticks after its first element, failure none / at the last / after the last element, no pre-emption); thorough: length 4, '
+              'step 0..3, long source of 4200',
+    'outside': 'length > 4 with symbolic failure position or pre-emption; long sources other than the two concrete lengths; more than one pre-emption; bytecode-level races in the hand-off queue',
     'assumptions': ['statement-level atomicity (P2 locality rule)', 'ThreadPoolExecutor/queue.Queue/concurrent Future.result are stubs with the contracts '
                     'of vfw/vt (submit starts a logical thread; shutdown(wait) blocks until workers finish)', 'SimLoop mirrors CPython 3.12 _run_once'],
 }}
